@@ -271,7 +271,9 @@ fn run_with_fault_drv(h: &History, plan: Option<FaultPlan>, drv_path: Option<&st
     let reclass = |sig: &mut Option<(String, String)>| {
         if let Some((s, w)) = sig {
             if table_read_fault && plan.as_ref().map_or(false, |p| !p.sticky)
-                && (s == "c08:scan-misses-acknowledged-write" || s == "c08:acknowledged-write-not-visible" || s == "c08:acknowledged-write-lost-after-reopen" || s == "c08:scan-returns-impossible-value" || s == "c08:read-returns-impossible-value" || s == "c08:impossible-value-after-reopen")
+                && (s == "c08:scan-misses-acknowledged-write" || s == "c08:acknowledged-write-not-visible" || s == "c08:acknowledged-write-lost-after-reopen" || s == "c08:scan-returns-impossible-value" || s == "c08:read-returns-impossible-value" || s == "c08:impossible-value-after-reopen"
+                    // the same defect seen by the durability monitor: the compaction's manifest edit changes the recovered contents
+                    || (s == "c08:operation-order-outside-the-verified-discipline-under-fault" && w.contains(" appendManifest ") && w.contains("deleted=[(")))
             {
                 *s = "c08:table-read-error-swallowed-by-iterator-loses-data".into();
                 *w = format!("{w} — the injected failure hit a {} of {}: the table iterator logged it and ended early, the compaction consuming it wrote an incomplete output and deleted its inputs", hit.as_ref().unwrap().0, hit.as_ref().unwrap().1);
@@ -352,6 +354,7 @@ fn run_with_fault_drv(h: &History, plan: Option<FaultPlan>, drv_path: Option<&st
         if let Some(what) = bad {
             let removal = what.contains(" removeWal ") || what.contains(" removeTable ") || what.contains(" removeManifest ");
             out.sig = Some((if removal { "c11:file-needed-by-recovery-removed".into() } else { "c08:operation-order-outside-the-verified-discipline-under-fault".into() }, what));
+            reclass(&mut out.sig);
         }
     }
     out
